@@ -32,6 +32,9 @@ type c14Case struct {
 	Keys []string `json:"keys"`
 	Path []msOp   `json:"path"`
 	Ops  []msOp   `json:"ops,omitempty"`
+	// deep: every program that starts with Path[0] and has Depth operations, over Vals values (0 = the 3-op / 1-value pass)
+	Depth int `json:"depth,omitempty"`
+	Vals  int `json:"vals,omitempty"`
 }
 
 var c14Vals = [][]byte{[]byte("x"), []byte("yy"), {}}
@@ -224,7 +227,7 @@ func msObserve(ms memstore.MemStoreI, m msModel, keys []string, r *core.Result) 
 func (c c14) Run(ctx *core.Ctx) error {
 	keys := []string{"", "a", "b"}
 	alpha := c14Alphabet(len(keys), len(c14Vals))
-	ctx.Ev.Rule = "explicit-state BFS to closure over {Add,Upsert,Delete,DeleteIfExists,Tombstone} x keys {nil,\"\",a,b} x values {nil,\"\",x,yy}; a state = canonical reference map (key -> absent|tombstone|value), successors computed by replaying the shortest path on a fresh memstore; every observer is compared in every state; then both flush variants from every reachable state; second pass: every 3-op program over 12 keys. non-trivial = every state except the empty one"
+	ctx.Ev.Rule = "explicit-state BFS to closure over {Add,Upsert,Delete,DeleteIfExists,Tombstone} x keys {nil,\"\",a,b} x values {nil,\"\",x,yy}; a state = canonical reference map (key -> absent|tombstone|value), successors computed by replaying the shortest path on a fresh memstore; every observer is compared in every state; then both flush variants from every reachable state; second pass: every 3-op program over 12 keys; third pass: every program of 4 operations over 2-3 keys x all values (no state merging: rejected calls and no-op calls are inside the programs). non-trivial = every state except the empty one"
 	ctx.Ev.Bounds["keys"] = append([]string{"<nil>"}, keys...)
 	ctx.Ev.Bounds["values"] = []string{"<nil>", "", "x", "yy"}
 	seen := map[string][]msOp{"": {}}
@@ -296,6 +299,32 @@ func (c c14) Run(ctx *core.Ctx) error {
 	}
 	ctx.Ev.Bounds["large_universe_keys"] = len(big)
 	ctx.Ev.Bounds["large_universe_depth"] = 3
+	// every program (not only one path per reference state): operations that are rejected or that leave the reference map
+	// unchanged may still move internal state (size accounting, slots), which the state-merging search above cannot see
+	pk, pd := []string{"", "a"}, 4
+	if ctx.Tier == "thorough" {
+		pk, pd = []string{"", "a", "b"}, 4
+	}
+	palpha := c14Alphabet(len(pk), len(c14Vals))
+	cases = cases[:0]
+	for _, op := range palpha {
+		cases = append(cases, core.J(c14Case{Kind: "deep", Keys: pk, Path: []msOp{op}, Depth: pd, Vals: len(c14Vals)}))
+	}
+	if ctx.Tier == "thorough" {
+		for _, op := range c14Alphabet(2, len(c14Vals)) {
+			for _, op2 := range c14Alphabet(2, len(c14Vals)) {
+				cases = append(cases, core.J(c14Case{Kind: "deep", Keys: []string{"", "a"}, Path: []msOp{op, op2}, Depth: 5, Vals: len(c14Vals)}))
+			}
+		}
+	}
+	rs = ctx.Pmap(cases)
+	ctx.Fold(rs, cases)
+	for i, r := range rs {
+		if r.Died {
+			ctx.Report(core.Violation{Desc: "worker died: " + r.DiedMsg, Case: cases[i]})
+		}
+	}
+	ctx.Ev.Bounds["all_programs_pass"] = fmt.Sprintf("every program of %d operations over keys %q (+nil) x values {nil,\"\",x,yy}, all observers after the last operation (thorough: also 5 operations over 2 keys)", pd, pk)
 	// population pass: many distinct keys (allocation chunking, skip-list height, size accounting only show with many keys)
 	nmax := 4100
 	if ctx.Tier == "thorough" {
@@ -406,28 +435,40 @@ func (c c14) Case(w *core.WCtx, payload json.RawMessage) core.Result {
 			r.Sample = string(core.J(map[string]any{"kind": "flush both variants", "path": cs.Path}))
 		}
 	case "deep":
-		alpha := c14Alphabet(len(cs.Keys), 1)
-		for _, op2 := range alpha {
-			for _, op3 := range alpha {
-				path := []msOp{cs.Path[0], op2, op3}
+		nv, depth := cs.Vals, cs.Depth
+		if nv == 0 {
+			nv, depth = 1, 3
+		}
+		alpha := c14Alphabet(len(cs.Keys), nv)
+		path := append([]msOp{}, cs.Path...)
+		var rec func() bool
+		rec = func() bool {
+			if len(path) == depth {
 				ms, m, ok := build(path)
 				r.Traces++
 				if !ok {
-					if len(r.Viol) > 5 {
-						return r
-					}
-					continue
+					return len(r.Viol) <= 5
 				}
 				for _, b := range msObserve(ms, m, cs.Keys, &r) {
 					r.Viol = append(r.Viol, core.Violation{Desc: fmt.Sprintf("after %v: %s", path, b),
-						Case: core.J(c14Case{Kind: "expand", Keys: cs.Keys, Path: path[:2], Ops: []msOp{op3}})})
+						Case: core.J(c14Case{Kind: "expand", Keys: cs.Keys, Path: append([]msOp{}, path[:len(path)-1]...), Ops: []msOp{path[len(path)-1]}})})
 				}
-				if len(r.Viol) > 5 {
-					return r
+				if nv == 1 {
+					r.Keys = append(r.Keys, core.HashKey("big", m.canon()))
 				}
-				r.Keys = append(r.Keys, core.HashKey("big", m.canon()))
+				return len(r.Viol) <= 5
 			}
+			for _, op := range alpha {
+				path = append(path, op)
+				ok := rec()
+				path = path[:len(path)-1]
+				if !ok {
+					return false
+				}
+			}
+			return true
 		}
+		rec()
 		// dedupe keys inside the case to keep the result small
 		sort.Strings(r.Keys)
 		r.Keys = uniq(r.Keys)
